@@ -80,6 +80,11 @@ def configs(tier, seed):
     cfgs.append({"tree": ["D", [["a", ["F", "u3", "r"]], ["b", ["F", "u8", "rw"]], ["c", ["F", "s4", "rw"]]]], "access": "rw", "via": "annot_sub"})
     cfgs.append({"tree": ["D", [["zz", ["F", "u8", "w"]]]], "access": "w", "via": "annot_sub"})
     cfgs.append({"tree": ["L", [["F", "u1", "rw"], ["L", [["F", "u3", "r"], ["F", "e2", "w"]]], ["D", [["x", ["F", "s4", "rw"]]]]]], "access": "rw", "via": "arg"})
+    # field names that coincide with methods of the collection classes (Mapping / Sequence API, flatten): a name is just a name
+    cfgs.append({"tree": ["D", [["items", ["F", "u3", "rw"]], ["flatten", ["F", "u8", "r"]], ["keys", ["D", [["values", ["F", "u1", "w"]], ["get", ["F", "s4", "rw"]]]]],
+                               ["index", ["L", [["F", "u1", "rw"], ["F", "e2", "r"]]]], ["count", ["F", "u3", "w"]], ["_fields", ["F", "u1", "rw"]]]],
+                 "access": "rw", "via": "arg"})
+    cfgs.append({"tree": ["D", [["port", ["F", "u3", "rw"]], ["field", ["F", "u8", "r"]], ["f", ["F", "u1", "w"]], ["element", ["F", "u1", "rw"]]]], "access": "rw", "via": "annot"})
     # deep nesting (6 levels, alternating dicts and lists) with leaves at several depths
     deep = ["F", "u3", "rw"]
     for lvl in range(6):
